@@ -118,6 +118,24 @@ pub fn enabled(w: &World, cfg: &Cfg) -> Vec<Op> {
                 add(&mut v, Op::new(K::BIntoVec, i, 0, 1, 0));
                 add(&mut v, Op::new(K::BDrop, i, 0, 0, 0));
                 add(&mut v, Op::new(K::BIntoIter, i, 0, 0, 0));
+                if free && on(K::BSlice) {
+                    // explicit Bound pairs: exclusive starts
+                    if l >= 1 {
+                        v.push(Op::new(K::BSliceBounds, i, 2, 0, 0)); // (Excluded(0), Unbounded) = 1..
+                        v.push(Op::new(K::BSliceBounds, i, 2, l - 1, 0)); // empty tail
+                        v.push(Op::new(K::BSliceBounds, i, 0, 0, l)); // 1..l
+                        v.push(Op::new(K::BSliceBounds, i, 1, 0, l - 1)); // 1..=l-1
+                        v.push(Op::new(K::BSliceBounds, i, 3, 0, l - 1)); // ..=l-1
+                    }
+                    v.push(Op::new(K::BSliceBounds, i, 4, l, 0)); // l..
+                }
+                if cfg.ooc && on(K::BSlice) {
+                    v.push(Op::new(K::BSliceBounds, i, 2, l, 0)); // (Excluded(l), Unbounded): begin l+1 > end l
+                    v.push(Op::new(K::BSliceBounds, i, 2, usize::MAX, 0)); // begin overflows
+                    v.push(Op::new(K::BSliceBounds, i, 1, 0, l)); // ..=l past the end
+                    v.push(Op::new(K::BSliceBounds, i, 1, 0, usize::MAX)); // end overflows
+                    v.push(Op::new(K::BSliceBounds, i, 4, l + 1, 0)); // (Included(l+1), Unbounded)
+                }
                 if cfg.ooc {
                     add(&mut v, Op::new(K::BSlice, i, 0, 0, l + 1));
                     add(&mut v, Op::new(K::BSlice, i, 0, 2, 1));
@@ -194,6 +212,14 @@ pub fn enabled(w: &World, cfg: &Cfg) -> Vec<Op> {
                     add(&mut v, Op::new(K::MExtendIter, i, 0, a, 0));
                 }
                 add(&mut v, Op::new(K::MExtendIter, i, 0, 1, 1));
+                // lying size hints (too small / too large) and an iterator that panics after growth
+                add(&mut v, Op::new(K::MExtendLie, i, 0, c - l + 1, 0));
+                add(&mut v, Op::new(K::MExtendLie, i, 0, 1, 3));
+                add(&mut v, Op::new(K::MExtendLie, i, 0, 0, 1));
+                add(&mut v, Op::new(K::MExtendLie, i, 0, 2, c - l + 2));
+                add(&mut v, Op::new(K::MExtendPanic, i, 0, c - l + 1, 0));
+                add(&mut v, Op::new(K::MExtendPanic, i, 0, 1, 0));
+                add(&mut v, Op::new(K::MExtendPanic, i, 0, c - l + 1, c - l + 2));
                 add(&mut v, Op::new(K::MIntoIter, i, 0, 0, 0));
                 if l > 0 {
                     add(&mut v, Op::new(K::MWrite, i, 0, 0, 0));
@@ -213,6 +239,11 @@ pub fn enabled(w: &World, cfg: &Cfg) -> Vec<Op> {
                 add(&mut v, Op::new(K::MIntoVec, i, 0, 1, 0));
                 add(&mut v, Op::new(K::MDrop, i, 0, 0, 0));
                 if cfg.ooc {
+                    if c > l {
+                        for a in 0..3 {
+                            add(&mut v, Op::new(K::MUninitApi, i, 0, a, 0));
+                        }
+                    }
                     for a in [c + 1, c + 2, ISIZE_MAX + 1, usize::MAX] {
                         add(&mut v, Op::new(K::MSplitOff, i, 0, a, 0));
                     }
@@ -300,12 +331,14 @@ pub struct Explorer {
     pub classes: BTreeSet<String>,
     pub capped: bool,
     pub level_sizes: Vec<u64>,
+    /// the last transition violated a property: its state is reported, not explored further
+    pub last_violated: bool,
 }
 
 impl Explorer {
     pub fn new(cfg: Cfg, engine: &str, config: &str) -> Explorer {
         let rep = Report::new(engine, &cfg.property, config);
-        Explorer { cfg, rep, seen: HashSet::new(), states: 0, transitions: 0, execs: 0, panics: 0, nontrivial: 0, perm_epilogues: 0, probes: 0, per_kind: BTreeMap::new(), classes: BTreeSet::new(), capped: false, level_sizes: vec![] }
+        Explorer { cfg, rep, seen: HashSet::new(), states: 0, transitions: 0, execs: 0, panics: 0, nontrivial: 0, perm_epilogues: 0, probes: 0, per_kind: BTreeMap::new(), classes: BTreeSet::new(), capped: false, level_sizes: vec![], last_violated: false }
     }
 
     fn report(&mut self, v: &Vio, hist: &[Op], extra: &str) {
@@ -341,6 +374,7 @@ impl Explorer {
         for v in &vios {
             self.report(v, hist, "");
         }
+        self.last_violated = !vios.is_empty();
         (k, live)
     }
 
@@ -378,8 +412,13 @@ impl Explorer {
                     if k != parent_key {
                         self.nontrivial += 1;
                     }
+                    let violated = self.last_violated;
                     let is_new = if cfg.dedup { self.seen.insert(k) } else { true };
-                    if is_new {
+                    if is_new && violated {
+                        // a violating state is reported with its history; nothing is explored below it
+                        self.states += 1;
+                        new_here += 1;
+                    } else if is_new {
                         self.states += 1;
                         new_here += 1;
                         self.on_new_state(&h2, &live2);
